@@ -134,6 +134,20 @@ def one(ctx, rng, linear):
     res = py_simulate_model(T.copy(), Model=M, stochastic=False, return_dataframe=False)
     rows = np.array(res.py_get_result())
     ctx.evaluated()
+    # the safe interface integrates the same rate equations when every consuming reaction is mass action (its guard only
+    # skips what is zero anyway): same reference, same tolerance
+    if all(r["prop"]["type"] == "massaction" for r in spec["reactions"]):
+        rs = np.array(py_simulate_model(T.copy(), Model=build_model(spec), stochastic=False, safe=True, return_dataframe=False).py_get_result())
+        ctx.evaluated()
+        if rs.shape == ref.shape and not np.any(np.isnan(rs)):
+            es = np.abs(rs - ref)
+            ts = 2e-5 * (1.0 + np.abs(ref))
+            if np.any(es > ts):
+                i = int(np.argmax((es / ts).max(axis=1)))
+                ctx.violation("det/accuracy/safe/" + kind, "safe mode: row %d (t=%g) differs from the %s reference by %g (allowed %g)" % (i, T[i], kind, es[i].max(), ts[i].min()),
+                              dict(rep, row=i, got=rs[i].tolist(), reference=ref[i].tolist(), safe=True))
+                return
+            ctx.count("validated_safe:" + kind)
     if rows.shape != (len(T), n):
         ctx.violation("det/shape", "result has shape %s for %d time points" % (rows.shape, len(T)), rep)
         return
